@@ -138,6 +138,14 @@ func checkDeterminism(c *c02Case) (key, msg string, collide bool) {
 		}
 		for i := 1; i < len(outs); i++ {
 			if outs[i] != outs[0] {
+				// the same diagnostics in another order: the order dependence of fresh runs (same root
+				// cause, same key); other diagnostics: state kept by the Linter value
+				a, b := strings.Split(outs[0], "\n"), strings.Split(outs[i], "\n")
+				sort.Strings(a)
+				sort.Strings(b)
+				if strings.Join(a, "\n") == strings.Join(b, "\n") {
+					return "C02/output-differs-between-runs:" + c.Kind, fmt.Sprintf("LintFile run 1 and run %d with the same Linter print the same diagnostics in another order\n--- run 1\n%s\n--- run %d\n%s\n--- input\n%s", i+1, outs[0], i+1, outs[i], c02Show(c)), collide
+				}
 				return "C02/output-differs-between-runs-of-one-linter:" + c.Kind, fmt.Sprintf("LintFile run 1 and run %d with the same Linter differ\n--- run 1\n%s\n--- run %d\n%s\n--- input\n%s", i+1, outs[0], i+1, outs[i], c02Show(c)), collide
 			}
 		}
@@ -270,7 +278,7 @@ func TestC02(t *testing.T) {
 			}
 		}
 		head := "on: push\njobs:\n"
-		for tmpl := 0; tmpl <= 7; tmpl++ {
+		for tmpl := 0; tmpl <= 8; tmpl++ {
 			tmpl := tmpl
 			r.Check(t, fmt.Sprintf("template-%d", tmpl), hx.N(32, 800), func(rt *rapid.T) {
 				switch tmpl {
@@ -401,6 +409,27 @@ func TestC02(t *testing.T) {
 				case 6: // undefined names with alternatives + duplicates at one position
 					src := head + "  a:\n    runs-on: ubuntu-latest\n    permissions:\n      zz-scope: read\n      yy-scope: write\n    steps:\n      - run: echo ${{ github.zzz }} ${{ runner.yyy }} ${{ unknownfunc() }} ${{ unknownctx.x }}\n        shell: zsh-unknown\n"
 					run(rt, oneFile("unknown-names-with-alternatives", src), true)
+				case 8: // two entries of one mapping whose diagnostics land on the same position
+					// (an expression error behind an escaped line break is reported one line further down,
+					// see the open C07 finding; the order of two diagnostics at one position must still
+					// not depend on the iteration order of the mapping)
+					ind := rapid.SampledFrom([]string{"  ", "    ", "      "}).Draw(rt, "envindent")
+					pad := rapid.SampledFrom([]string{" ", " ", "  "}).Draw(rt, "pad")
+					entries := []string{ind + "E1: \"${{ 'u\\n }}\"\n", ind + "E2: \"${{ a" + pad + "b }}\"\n", ind + "E3: ok\n"}
+					if rapid.Bool().Draw(rt, "swap") {
+						entries[0], entries[2] = entries[2], entries[0]
+					}
+					env := strings.Join(entries, "")
+					var src string
+					switch len(ind) {
+					case 2:
+						src = "on: push\nenv:\n" + env + "jobs:\n  a:\n    runs-on: ubuntu-latest\n    steps:\n      - run: echo\n"
+					case 4:
+						src = head + "  a:\n    runs-on: ubuntu-latest\n    env:\n" + strings.ReplaceAll(env, ind, "      ") + "    steps:\n      - run: echo\n"
+					default:
+						src = head + "  a:\n    runs-on: ubuntu-latest\n    steps:\n      - uses: owner/unknown-action@v1\n        with:\n" + strings.ReplaceAll(env, ind, "          ")
+					}
+					run(rt, oneFile("diagnostics-of-two-entries-at-one-position", src), true)
 				default: // local action with several missing required inputs
 					meta := "name: x\ninputs:\n"
 					n := rapid.IntRange(2, 5).Draw(rt, "nin")
